@@ -141,7 +141,8 @@ def expected_text(node, n):
 
 def fk_expected_text(node, n):
     ty = node["ty"] or "i32"
-    i = model.range_select(node, n)
+    # a count fixed in a file is a double; against an f32 range it is compared as an f32 (like the bounds, which are parsed as f32)
+    i = model.range_select(node, rustfmt.to_f32(n) if ty == "f32" else n)
     disp = rustfmt.f64_display(float(n)) if ty.startswith("f") else str(int(n))
     return "b%d:%s" % (i, disp)
 
